@@ -583,8 +583,8 @@ func main() {
 			"distinct = distinct (history, step, target); non-trivial = a step after the first")
 		var plans []plan
 		plans = scriptedPlans(c.Thor)
-		nrandom := c.Scale(5, 150)
-		steps := c.Scale(5, 8)
+		nrandom := c.Scale(5, 60)
+		steps := c.Scale(5, 7)
 		for i := 0; i < nrandom; i++ {
 			r := c.Rng.Fork()
 			plans = append(plans, randomPlan(r, steps, i%2 == 0))
